@@ -240,6 +240,20 @@ theorem C07_only_these :
 /-- Published configurations are never written on the request path. -/
 theorem C07_immutable : Facts.cors_requestPathWrites = [] := by decide
 
+/-- The functions that run before an internal configuration is published (`newInternalConfig` and
+the validators it calls on the value under construction). -/
+def constructionFunctions : List Bytes :=
+  [Spec.b "newInternalConfig", Spec.b "validateOrigins", Spec.b "validateMethods", Spec.b "validateRequestHeaders",
+   Spec.b "validateMaxAge", Spec.b "validateResponseHeaders", Spec.b "validatePreflightStatus"]
+
+/-- **C07 (never mutated after publication).** Every statement of the package that writes into an
+`internalConfig` value — an assignment to one of its fields (also through a selector or index
+chain) or a mutating call on one of them — sits in a construction function; in particular neither
+`Config()`/`newConfig` nor anything on the request path writes into a published configuration
+(regenerated list `function|field|kind`). -/
+theorem C07_published_immutable :
+    Facts.cors_icfgWrites.all (fun row => constructionFunctions.contains ((Bytes.splitOn 124 row).headD [])) = true := by decide
+
 /-- Non-vacuity: a two-thread initial state (a reader running Wrap's program, a writer running
 Reconfigure's) satisfies `Init`. -/
 example : ∀ pw pr, decodeProg Facts.cors_prog_Wrap = some pw → decodeProg Facts.cors_prog_Reconfigure = some pr →
@@ -262,5 +276,6 @@ example : ∀ pw pr, decodeProg Facts.cors_prog_Wrap = some pw → decodeProg Fa
 #print axioms C07_wrap_snapshot
 #print axioms C07_only_these
 #print axioms C07_immutable
+#print axioms C07_published_immutable
 
 end Cors
